@@ -5,9 +5,9 @@ from ..framework import canon
 PROP = "C13"
 LEAN_TARGETS = ["Eliot.Properties.C13"]
 AUDIT = "Eliot/Audit/C13.lean"
+SKELETON_TARGETS = {"Sys.C13.skeleton_E9": "Eliot.Properties.C13Skel"}
 THEOREMS = ["Sys.C13.serializeFields_eq", "Sys.C13.serializers_called_once", "Sys.C13.serialized_exactly_once",
             "Sys.C13.success_stages_serialized", "Sys.C13.serializer_failure_contained", "Sys.C13.per_kind_serializer"]
-GENERATED_OBLIGATIONS = ["Sys.C13.skeleton_E9"]
 RULE = ("programs of the core language with generated ActionType / MessageType definitions (0-4 declared fields, serializers that "
         "tag their output with the global call index so that a second application would be visible, raisers by mask, declared-but-"
         "missing fields) for start, success, failure and stand-alone messages, destinations registered at the start, global fields "
